@@ -346,7 +346,17 @@ def canon(s):
     status.sort()
     return (tuple(status), len(s.a.control._unsent_prekeys), bool(s.a.stack.getProp(W.YowAuthenticationProtocolLayer.PROP_PASSIVE, False)),
             s.a.control._reboot_connection, s.a.up(), len(s.a.control.iqRegistry), len(s.consumed) > 0, bool(s.first_msgs), len(server_ids),
-            tuple(len(ids) for _, ids in s.held))
+            tuple(len(ids) for _, ids in s.held), _control_state(s.a.control))
+
+
+def _control_state(control):
+    """every plain-data attribute of the real control layer, whatever its name (request ids excluded: they count up
+    with the history and carry no behaviour) - histories are merged only if the layer holds nothing that tells them apart"""
+    from vf.explore.bfs import simple_state
+    out = []
+    for k, v in simple_state(control, skip=("iqRegistry",)):
+        out.append((k, v))
+    return tuple(out)
 
 
 def check(s, hist):
